@@ -23,6 +23,8 @@ PROPS = {
             'rule': 'exhaustive: every string over the 15 classes up to length 4 (quick) / 5 (thorough), with a fixed and a random representative code point per class; random strings up to length 300 biased to RI runs, Extend runs, ZWJ chains, Hangul; arbitrary (also invalid) rune values; all code points for the classifier. non-trivial = more than one code point'},
     'C02': {'streams': [], 'engines': ['engine_sweep'],
             'rule': 'exhaustive: all 1,114,112 code points plus 9 negative / out-of-range rune values; the 14 predicate bits of the compiled Go code against the Unicode 13.0.0 reference, against the regenerated Coq tables and against the extracted classifier. non-trivial = outside ASCII'},
+    'C03': {'streams': [('subst', 1500, 60000)],
+            'rule': 'pairs (text, image of the text under a cluster-for-cluster substitution between caseless self-contained clusters of 1-5 code points: digits, CJK, precomposed and conjoining Hangul, emoji ZWJ sequences, flags, Indic and Thai clusters, digit + combining marks, Prepend + digit), the same operation on both with string arguments substituted likewise; the outputs must correspond under the substitution. non-trivial = contains a non-ASCII byte'},
     'C04': {'streams': [('chars', 1500, 60000), ('hist', 300, 10000)]},
     'C05': {'streams': [('hist', 1200, 60000)]},
     'C06': {'streams': [('wrap', 1200, 60000)]},
@@ -36,6 +38,14 @@ PROPS = {
     'C14': {'streams': [('twocols', 600, 30000)]},
     'C15': {'streams': [('deftable', 500, 25000)]},
     'C16': {'streams': [('table', 800, 40000)]},
+    'C17': {'streams': [('opts', 1200, 60000)]},
+    'C18': {'streams': [('total', 1200, 60000), ('hist', 150, 5000), ('chars', 150, 5000), ('edit', 150, 5000), ('lines', 150, 5000), ('paras', 200, 5000),
+                        ('wrap', 150, 5000), ('ws', 200, 5000), ('justify', 150, 5000), ('align', 150, 5000), ('twocols', 150, 5000),
+                        ('deftable', 150, 5000), ('table', 150, 5000), ('opts', 100, 5000)]},
+    'C19': {'streams': [], 'engines': ['engine_gemhist'],
+            'rule': 'random histories of 3-24 operations (New from ill-formed and well-formed rune strings, Zero, the zero value String{}, value copies, Add, Sub, SetCharAt, Repeat, CharAt, Len, Runes, GraphemeIndexes) over a growing pool; after every step every pool value is observed. all histories count as non-trivial (they involve shared cache cells)'},
+    'C20': {'streams': [], 'engines': ['engine_race', 'engine_gemhist'],
+            'rule': 'race-detector stress: generated cases of every stream executed by 16 goroutines concurrently plus fixed operations on 8 shared sub-editors, compared with the sequential results; plus gem.String histories including Reverse against the heap model'},
 }
 
 def parse_tables(path, names=None):
@@ -122,11 +132,60 @@ def engine_split(ctx, prop, r):
                                'case': 'runes ' + f[1], 'impl': ' '.join(f[2:])})
     r.samples.append({'stream': 'splitx', 'case': open(out).readlines()[5000].strip()})
 
+def engine_gemhist(ctx, prop, r):
+    """histories over a pool of gem.String values: results and per-step snapshots (runes, cache cell identity up
+    to renaming, nil-ness, contents) of the implementation against the heap model Gem/GHeap.v"""
+    n = 4000 if ctx.tier == 'quick' else 250000
+    rev = ' -rev' if prop == 'C20' else ''
+    shards = 1 if ctx.tier == 'quick' else 16
+    tot = bad = steps = 0
+    for sh in range(shards):
+        out = os.path.join(ctx.work, 'gemhist_%d.txt' % sh)
+        rc, o = ctx.sh('%s gemhist -n %d -seed %d%s -out %s' % (ctx.build.harness, n // shards, ctx.seed * 100 + sh, rev, out))
+        if rc != 0:
+            r.engine_errors.append('gemhist failed: ' + o[-300:]); return
+        rc, o = ctx.sh('%s gemhist %s' % (ctx.driver, out))
+        m = re.search(r'GEMHIST (\d+) (\d+) (\d+)', o)
+        if not m:
+            r.engine_errors.append('driver gemhist failed: ' + o[-300:]); return
+        tot += int(m.group(1)); bad += int(m.group(2)); steps += int(m.group(3))
+        for l in o.splitlines():
+            if l.startswith('GEMDIFF') and len(r.disagreements) < 10:
+                f = l.split()
+                line = [x for x in open(out) if x.startswith(f[1] + ' ')]
+                r.disagreements.append({'id': f[1], 'stream': 'gemhist', 'step': f[2], 'model': f[3][:500], 'impl': f[4][:500],
+                                        'case': (line[0].split('#')[0].strip() if line else '')[:1500]})
+        if sh == 0:
+            r.samples.append({'stream': 'gemhist', 'case': open(out).readline().split('#')[0].strip()[:400]})
+    r.evaluations += tot
+    r.agreements += tot - bad
+    r.distinct_nontrivial += tot
+    r.stream_counts['gemhist histories (%d operations)' % steps] = tot
+
+def engine_race(ctx, prop, r):
+    """16 goroutines on shared and unshared Editors under the Go race detector; results must equal the sequential ones"""
+    n = 200 if ctx.tier == 'quick' else 3000
+    env = dict(ctx.env, VERIF_SEED=str(ctx.seed), VERIF_RACE_CASES=str(n))
+    rc, o = ctx.sh('go test -race -tags verif -run TestRace -count=1 -timeout 40m . 2>&1 | tail -60', cwd=os.path.join(ctx.verif, 'harness'), env=env, timeout=3000)
+    r.evaluations += n * 17
+    r.stream_counts['race stress: cases x (1 sequential + 16 concurrent goroutines)'] = n * 17
+    if re.search(r'^ok\s', o, re.M) and 'DATA RACE' not in o and 'FAIL' not in o:
+        r.agreements += n * 17
+        r.distinct_nontrivial += n
+        r.samples.append({'stream': 'race', 'case': 'go test -race -tags verif -run TestRace (VERIF_RACE_CASES=%d, 16 goroutines, 8 shared sub-editors)' % n})
+    else:
+        kind = 'data race reported by the Go race detector' if 'DATA RACE' in o else 'concurrent result differs from sequential result or shared state changed'
+        r.failures.append({'id': 'race-%d' % ctx.seed, 'stream': 'race', 'in_guard': True, 'clause': '-',
+                           'case': 'cd /verif/harness && VERIF_SEED=%d VERIF_RACE_CASES=%d go test -race -tags verif -run TestRace -count=1 .' % (ctx.seed, n),
+                           'impl': kind + ': ' + o[-1500:]})
+
 class Ctx:
     def __init__(self, verif, repo, work, build, tier, seed, env, sh):
         self.verif, self.repo, self.work, self.build = verif, repo, work, build
         self.tier, self.seed, self.env, self.sh = tier, seed, env, sh
         self.driver = os.path.join(verif, 'bin', 'driver')
+
+RELATIONAL = {'idem', 'roundtrip', 'reobserve', 'variants', 'idempotent', 'subst'}
 
 class Result:
     def __init__(self):
@@ -223,7 +282,7 @@ def digest(ctx, prop, r, stream, cases, res, out, witness_ids=None):
             if i == '0':
                 pending.append((cid, f[3], g, clause))
     for cid, step, g, clause in pending:
-        m = model_ok.get((cid, step))
+        m = None if clause in RELATIONAL else model_ok.get((cid, step))
         is_witness = witness_ids is not None and cid in witness_ids
         if g == '1' or m is True or is_witness:
             fail = {'id': cid, 'stream': stream, 'step': int(step), 'in_guard': g == '1', 'model_passes_check': m,
